@@ -48,8 +48,11 @@ fn soup(rng: &mut Rng) -> String {
 }
 
 fn long_line(rng: &mut Rng) -> String {
-    let unit = *rng.pick(&["(", "-", "NOT ", "1+", "A(", "\"", "FNA(", "IF 1 THEN ", "9", "1E", ":", "é", "ELSE ", "A$+", "-(", "((1))+"]);
-    let head = *rng.pick(&["PRINT ", "10 PRINT ", "A=", "10 ", "", "20 DATA ", "INPUT "]);
+    let unit = *rng.pick(&[
+        "(", "-", "NOT ", "1+", "A(", "\"", "FNA(", "IF 1 THEN ", "9", "1E", ":", "é", "ELSE ", "A$+", "-(", "((1))+", " ", "\t", "  \t", ",", ";", "&H", "REM", "?",
+        ".", "1.", "=<", "GO TO", "<> ", "'", "A$(", "MID$(", "0",
+    ]);
+    let head = *rng.pick(&["PRINT ", "10 PRINT ", "A=", "10 ", "", "20 DATA ", "INPUT ", "10", "65529 ", " ", "PRINT \"X\"", "IF A THEN", "FOR I=1 TO"]);
     let n = rng.range(1, 1100) as usize / unit.len().max(1);
     let mut s = String::from(head);
     for _ in 0..n {
